@@ -140,6 +140,8 @@ func C10(e *Env) {
 		}
 	}
 	wiringC10(e)
+	c10ReadConfig(e, "R10.9")
+	r.Rule("R10.9", "failure paths of reading the configuration: a file is merged only after it was read and parsed successfully; no pattern, nothing processed and a file matched by two patterns are errors; the 'processed' flag is set only after a merge", 7)
 	c09FindFiles(e, "R10.8")
 	r.Rule("R10.8", "'a file matched by two patterns' is detected on cleaned paths: every matched path is filepath.Clean'ed before it is used as the bookkeeping key (shared with R09.3), so two spellings of one file are one key", 4)
 	r.NotCovered = append(r.NotCovered,
